@@ -5,6 +5,8 @@
 set -u
 HERE="$(cd "$(dirname "${BASH_SOURCE[0]}")/.." && pwd)"
 PATCH="$(realpath "$1")"; shift
+# the same change re-based onto a later fix: commit, when one is stored next to it
+[ -f "$(dirname "$PATCH")/patch.rebased.diff" ] && [ "$(basename "$PATCH")" = patch.diff ] && PATCH="$(dirname "$PATCH")/patch.rebased.diff"
 IDS="${*:-C01 C02 C03 C04 C05 C06 C07 C08 C09 C10 C11 C12 C13 C14 C15 C16 C17 C18 C19 C20}"
 TIER="${MUT_TIER:-quick}"
 if ! git -C /repo diff --quiet; then echo "refusing: /repo has uncommitted changes"; exit 2; fi
